@@ -128,15 +128,12 @@ func decodeTotal(r *ev.Rec, c c14Case, b []byte) (key string, err error) {
 	return "", nil
 }
 
-func countIEs(b []byte) int {
-	// number of IEs of a valid PDU, read with the library decoder (only used to classify cases)
-	p, err := ngap.Decoder(append([]byte{}, b...))
-	if err != nil || p == nil {
-		return 0
-	}
-	v := reflect.ValueOf(*p)
+// countIEs: number of top-level IEs of a generated PDU, read from the generated value itself
+// (never through the decoder under test; only used to classify cases).
+func countIEs(pdu interface{}) int {
+	v := reflect.ValueOf(pdu)
 	m := v.Field(int(v.Field(0).Int()))
-	if m.IsNil() {
+	if m.Kind() != reflect.Ptr || m.IsNil() {
 		return 0
 	}
 	val := m.Elem().FieldByName("Value")
@@ -191,7 +188,7 @@ func genC14(t *rapid.T) c14Case {
 	if len(rb) > 4096 {
 		rb = rb[:4096]
 	}
-	c := c14Case{Entry: base.Entry, nIEs: countIEs(rb)}
+	c := c14Case{Entry: base.Entry, nIEs: countIEs(base.value())}
 	if rapid.IntRange(0, 2).Draw(t, "structured") > 0 {
 		// structure-aware hostile input: the independent encoder alters one structural field
 		// (extension bit, length, count, index, bitmap bit, number) and writes the rest as is
@@ -277,7 +274,7 @@ func TestC14_Prefixes(t *testing.T) {
 			if err != nil || len(rb) > 1500 {
 				continue
 			}
-			n := countIEs(rb)
+			n := countIEs(pdu)
 			for cut := 0; cut < len(rb); cut++ {
 				c := c14Case{Kind: "prefix", Entry: "PDU/" + m.Name, Edits: []gen.Edit{{Op: "trunc", Pos: cut}}, Hex: hex.EncodeToString(rb[:cut])}
 				v := ev.Verdict{NT: n >= 3, Hash: ev.HashBytes(rb[:cut]), Classes: []string{"prefix-of:" + m.Name}}
